@@ -796,7 +796,19 @@ func parseMsgIDList(s string) ([]string, error) {
 	return h.MsgIDList("In-Reply-To")
 }
 
+// maxBodyDepth is the maximum nesting depth of a body structure. It protects
+// against stack exhaustion when a server sends deeply nested data.
+const maxBodyDepth = 100
+
 func readBody(dec *imapwire.Decoder, options *Options) (imap.BodyStructure, error) {
+	return readBodyDepth(dec, options, 0)
+}
+
+func readBodyDepth(dec *imapwire.Decoder, options *Options, depth int) (imap.BodyStructure, error) {
+	if depth > maxBodyDepth {
+		return nil, fmt.Errorf("body structure is nested too deeply")
+	}
+
 	if !dec.ExpectSpecial('(') {
 		return nil, dec.Err()
 	}
@@ -809,10 +821,10 @@ func readBody(dec *imapwire.Decoder, options *Options) (imap.BodyStructure, erro
 	)
 	if dec.String(&mediaType) {
 		token = "body-type-1part"
-		bs, err = readBodyType1part(dec, mediaType, options)
+		bs, err = readBodyType1part(dec, mediaType, options, depth)
 	} else {
 		token = "body-type-mpart"
-		bs, err = readBodyTypeMpart(dec, options)
+		bs, err = readBodyTypeMpart(dec, options, depth)
 	}
 	if err != nil {
 		return nil, fmt.Errorf("in %v: %v", token, err)
@@ -831,7 +843,7 @@ func readBody(dec *imapwire.Decoder, options *Options) (imap.BodyStructure, erro
 	return bs, nil
 }
 
-func readBodyType1part(dec *imapwire.Decoder, typ string, options *Options) (*imap.BodyStructureSinglePart, error) {
+func readBodyType1part(dec *imapwire.Decoder, typ string, options *Options, depth int) (*imap.BodyStructureSinglePart, error) {
 	bs := imap.BodyStructureSinglePart{Type: typ}
 
 	if !dec.ExpectSP() || !dec.ExpectString(&bs.Subtype) || !dec.ExpectSP() {
@@ -876,7 +888,7 @@ func readBodyType1part(dec *imapwire.Decoder, typ string, options *Options) (*im
 			return nil, dec.Err()
 		}
 
-		msg.BodyStructure, err = readBody(dec, options)
+		msg.BodyStructure, err = readBodyDepth(dec, options, depth+1)
 		if err != nil {
 			return nil, err
 		}
@@ -949,11 +961,11 @@ func readBodyExt1part(dec *imapwire.Decoder, options *Options) (*imap.BodyStruct
 	return &ext, nil
 }
 
-func readBodyTypeMpart(dec *imapwire.Decoder, options *Options) (*imap.BodyStructureMultiPart, error) {
+func readBodyTypeMpart(dec *imapwire.Decoder, options *Options, depth int) (*imap.BodyStructureMultiPart, error) {
 	var bs imap.BodyStructureMultiPart
 
 	for {
-		child, err := readBody(dec, options)
+		child, err := readBodyDepth(dec, options, depth+1)
 		if err != nil {
 			return nil, err
 		}
